@@ -19,6 +19,10 @@ SPEC = {
         {"name": "snapshot", "pkg": "./snapshot", "search_cases": 200, "timeout_quick": 300, "timeout_thorough": 900},
         # "so silences keep muting ... after a restart": the mute verdict after snapshot reload is C02's engine
         {"name": "silencer", "pkg": "./silencer", "search_cases": 6000, "quick_cases": 1200},
+        # the loader's verdict is only as good as what the application does with it: a torn notification-log snapshot in the
+        # data directory of the REAL application (app.New): it must refuse to start and leave the file alone (only the torn cases run here)
+        {"name": "reload", "pkg": "./reload", "search_cases": 6, "timeout_quick": 400, "timeout_thorough": 900, "timeout_search": 400,
+         "env": {"VERIF_RELOAD_ONLY": "torn"}, "only": ["decode_truncated"]},
     ],
     "rule": "real nflog.Log and silence.Silences: (a) generated stores (0..200 records quick, ..5000 thorough; shapes mix/min/multi/big, "
             "contents through Merge and through the write APIs Log/Set) -> Snapshot or real Maintenance -> load through SnapshotReader/SnapshotFile "
